@@ -80,6 +80,55 @@ Theorem C17_zsh_spec_field : forall s rest,
 Proof. exact zsh_field_context. Qed.
 Print Assumptions C17_zsh_spec_field.
 
+(** zsh, help of a positional argument (escaped in line; newlines are kept): both levels. *)
+Theorem C17_zsh_positional_word : forall s rest,
+  final sh_step ZSQ (zsh_positional_help s ++ rest) = final sh_step ZSQ rest /\
+  skeleton (events sh_step ZSQ (zsh_positional_help s ++ rest)) = skeleton (events sh_step ZSQ rest) /\
+  lits (events sh_step ZSQ (zsh_positional_help s ++ rest)) = zsh_pos_l1 s ++ lits (events sh_step ZSQ rest).
+Proof. exact zsh_pos_sq_context. Qed.
+Print Assumptions C17_zsh_positional_word.
+
+Theorem C17_zsh_positional_field : forall s rest,
+  final zspec_step ZsField (zsh_pos_l1 s ++ rest) = final zspec_step ZsField rest /\
+  events zspec_step ZsField (zsh_pos_l1 s ++ rest) = map Lit s ++ events zspec_step ZsField rest.
+Proof. exact zsh_pos_field_context. Qed.
+Print Assumptions C17_zsh_positional_field.
+
+(** PowerShell, '...': all five single-quote characters of the tokenizer. *)
+Theorem C17_powershell_single_quoted : forall s rest,
+  final ps_step PSQ (powershell_escape_help s ++ rest) = final ps_step PSQ rest /\
+  events ps_step PSQ (powershell_escape_help s ++ rest) = map Lit (flatten s) ++ events ps_step PSQ rest.
+Proof. exact powershell_sq_context. Qed.
+Print Assumptions C17_powershell_single_quoted.
+
+Theorem C17_powershell_single_quoted_closes : forall s c rest, ps_is_sq c = false ->
+  events ps_step PB (39 :: powershell_escape_help s ++ 39 :: c :: rest) =
+  Str 39 :: map Lit (flatten s) ++ Str 39 :: events ps_step PW (c :: rest).
+Proof. exact powershell_sq_closes. Qed.
+Print Assumptions C17_powershell_single_quoted_closes.
+
+(** fish, possible-value help inside the double-quoted -a list: level 1 (double quotes; the
+    dollar sign would be an [Act] event) and both levels together. *)
+Theorem C17_fish_double_quoted_list : forall s rest,
+  final fish_step FDQ (fish_possible_value_help s ++ rest) = final fish_step FDQ rest /\
+  events fish_step FDQ (fish_possible_value_help s ++ rest) =
+    map Lit (fish_escape_help s) ++ events fish_step FDQ rest.
+Proof. exact fish_dq_context. Qed.
+Print Assumptions C17_fish_double_quoted_list.
+
+Theorem C17_fish_possible_value_two_levels : forall s rest2,
+  lits (events fish_step FDQ (fish_possible_value_help s)) = fish_escape_help s /\
+  events fish_step FSQ (lits (events fish_step FDQ (fish_possible_value_help s)) ++ rest2) =
+    map Lit (flatten s) ++ events fish_step FSQ rest2.
+Proof. exact fish_possible_value_two_levels. Qed.
+Print Assumptions C17_fish_possible_value_two_levels.
+
+(** one-line slots: the payload contains no newline (it is [flatten s]). *)
+Theorem C17_flatten : forall s, ~ In 10 (flatten s) /\ length (flatten s) = length s /\
+  (forall i, nth i (flatten s) 0 = if nth i s 0 =? 10 then 32 else nth i s 0).
+Proof. exact flatten_spec. Qed.
+Print Assumptions C17_flatten.
+
 (** bash: none of the accessors bash.rs (or generator/utils.rs) calls returns descriptive text. *)
 Theorem C17_bash_no_text : bash_uses_text = false.
 Proof. exact bash_no_text. Qed.
